@@ -7,6 +7,7 @@ root=sys.argv[1]; prefix=sys.argv[2]; props=sys.argv[3:] or sorted(os.path.basen
 env=dict(os.environ, GOFLAGS='-mod=mod', GOPROXY='off', GOSUMDB='off', GOTOOLCHAIN='local'); env.pop('GOWORK',None)
 def sh(c): return subprocess.run(c,shell=True,capture_output=True,text=True,env=env)
 head=sh('git -C /repo rev-parse HEAD').stdout.strip()
+CAMPAIGN={'b4-':'fourth','b5-':'fifth','b6-':'sixth'}.get(prefix,prefix)
 WT='/tmp/import_wt'
 if not os.path.isdir(WT): sh(f'git -C /repo worktree add --detach {WT} {head}')
 for p in props:
@@ -24,7 +25,7 @@ for p in props:
         note=''
         for f in ('note.md','notes.md'):
             if os.path.exists(d+'/'+f): shutil.copy(d+'/'+f,dst+'/note.md'); note=open(d+'/'+f).read()
-        meta={'id':f'{prefix}{p}-{n}','anchored_property':p,'source':'fourth benign campaign: sub-agent asked for small/medium behaviour-preserving refactorings of the tree after the fix commits (property text + scratch worktree only)','status':'unchecked','what':' '.join(note.split())[:400],'checked':'go build, go vet and the existing suite pass with the change (re-run by me on HEAD %s)'%head[:7]}
+        meta={'id':f'{prefix}{p}-{n}','anchored_property':p,'source':CAMPAIGN+' benign campaign: sub-agent asked for small/medium behaviour-preserving refactorings of the tree after the fix commits (property text + scratch worktree only)','status':'unchecked','what':' '.join(note.split())[:400],'checked':'go build, go vet and the existing suite pass with the change (re-run by me on HEAD %s)'%head[:7]}
         json.dump(meta,open(dst+'/meta.json','w'),indent=1)
         print(p,n,'stored')
 sh(f'git -C /repo worktree remove --force {WT}')
